@@ -185,6 +185,10 @@ def run_ref(cfg, program, observe=False, extra_file=False):
     init = initial_for(mode)
     if init is None and extra_file:
         init = CONTENT
+    if "a" in mode:
+        # POSIX append semantics (every write lands at EOF and leaves the position there) are what the raw
+        # local file shows; CPython's *buffered* append files track a position that ignores O_APPEND
+        bufsize = 0
     rr = L.run(path, init, mode, bufsize, program, observe)
     if rr.open_error is None and not rr.closed:
         # the implicit close at the end of every program (L.run closes silently)
@@ -224,95 +228,88 @@ def compare(cfg, program, sr, rr):
 
 
 # ----------------------------------------------------------------------------- classification (keys)
-def predicted(cfg, wb):
-    """Logical state the client object stands for: (content if flushed now, position, next read stream)."""
-    mode = cfg[0]
-    disk, pos, realpos, rbuf, wbuf, size, closed, htell, fdpos, nreq = wb
-    disk = disk or b""
-    if closed:
-        return ("closed", disk, None)
-    content = disk
-    if wbuf:
-        if "a" in mode:
-            content = disk + wbuf
-        else:
-            rp = max(realpos, 0)
-            content = disk[:rp].ljust(rp, b"\0") + wbuf + disk[rp + len(wbuf):]
-    stream = None
-    if mode in ("r", "r+", "w+", "a+"):
-        stream = rbuf + (disk[realpos:] if realpos >= 0 else b"?")
-    return (content, pos, stream)
+PRIORITY = {
+    # (component, culprit is a write) -> anomalies of the start state, most relevant first
+    ("content", True): ("read-ahead-pending", "stays-buffered", "client-size-stale", "append-mode"),
+    ("position", True): ("stays-buffered", "client-size-stale", "read-ahead-pending", "append-mode"),
+    ("read-stream", True): ("read-ahead-pending", "stays-buffered", "client-size-stale", "append-mode"),
+    ("content", False): ("write-buffer-pending", "read-ahead-pending"),
+    ("position", False): ("read-ahead-pending", "write-buffer-pending"),
+    ("read-stream", False): ("read-ahead-pending", "write-buffer-pending"),
+}
 
 
-def feature(cfg, op, pre, post):
-    """The dominant anomaly of the state an operation started from (fixed priority), i.e. the input class
-    of the culprit step: read-ahead pending > write buffer pending > (write only) data stays in the write
-    buffer > (write only) append mode > plain."""
+def feature(cfg, op, pre, post, component):
+    """The input class of the culprit step: the most relevant anomaly of the state it started from.
+    read-ahead-pending: bytes read ahead of the logical position are buffered (_realpos != _pos);
+    write-buffer-pending: unflushed data in the write buffer; stays-buffered: this write only went to
+    the write buffer; client-size-stale: append mode and the client's _size differs from the served
+    file's size; append-mode."""
     mode = cfg[0]
     disk, pos, realpos, rbuf, wbuf, size, closed, htell, fdpos, nreq = pre
+    have = set()
     if rbuf or realpos != pos:
-        return "read-ahead-pending"
+        have.add("read-ahead-pending")
     if wbuf:
-        return "write-buffer-pending"
-    if op[0] == "write":
+        have.add("write-buffer-pending")
+    is_write = op[0] == "write"
+    if is_write:
         if post is not None and post[4]:
-            return "stays-buffered"
+            have.add("stays-buffered")
         if "a" in mode:
-            return "append-mode"
+            have.add("append-mode")
+            if size != len(disk or b""):
+                have.add("client-size-stale")
+    comp = component if component in ("content", "position", "read-stream") else "read-stream"
+    for f in PRIORITY[(comp, is_write)]:
+        if f in have:
+            return f
     return "plain"
 
 
-TRACK = {"final-bytes": ("content",), "bytes-after-flush": ("content",), "tell": ("position",),
-         "data": ("position", "read-stream")}
+def _same(a, b):
+    return a[0] == b[0] and (a[0] == "raise" or a[1] == b[1])
 
 
 def classify(cfg, program, verdict):
-    """Stable key = (component of the logical file state that went wrong, kind of the culprit operation,
-    dominant anomaly of the state it started from).
+    """Stable key = (component of the file abstraction that went wrong, class of the culprit operation,
+    most relevant anomaly of the state the culprit started from).  Used only for keying, not for the verdict.
 
-    The culprit is the first step after which the logical state the SFTP file object stands for (white
-    box: content if flushed now / position / bytes the next read would deliver) departs from the reference
-    file's, restricted to the component the violated clause is about (final bytes -> content, tell ->
-    position, returned data -> position or read stream).  Used only for keying, never for the verdict."""
+    Culprit: BFS visits every prefix before its extensions and each prefix is itself checked with an implicit
+    close, so for a final-bytes violation the culprit is the last step.  For a wrong tell()/returned data
+    the culprit is the first step after which the probes tell() and read() (run on a separate replay of that
+    prefix, on both the SFTP file and the reference) start to differ; if none does, it is the observed step."""
     clause, at, _ = verdict
     if at == "open":
         return "raise:open:mode-" + cfg[0], None
-    extra = False
-    sr = run_sftp(cfg, program, observe=True, extra_file=extra)
-    rr = run_ref(cfg, program, observe=True, extra_file=extra)
+    sr = run_sftp(cfg, program, observe=True)
     prog = list(program) + ([] if sr.closed else [("close",)])
-    mode = cfg[0]
-    readable = mode in ("r", "r+", "w+", "a+")
-    nobs = min(len(sr.observed), len(rr.observed)) - 1
     if clause == "raise":
         a = sr.results[at]
         who = "sftp-raises" if a[0] == "raise" else "sftp-does-not-raise"
         return "raise:%s:%s" % (opname(prog[at]), who), at
-    track = TRACK[clause]
-    for i in range(min(len(program), nobs)):
-        op = program[i]
-        tag = feature(cfg, op, sr.observed[i], sr.observed[i + 1])
-        ps = predicted(cfg, sr.observed[i + 1])
-        ro = rr.observed[i + 1]
-        if ps[0] == "closed" or ro[0] == "closed":
-            if "content" in track and ps[1] != (ro[1] or b""):
-                return "content:%s:%s" % (opname(op), tag), i
-            break
-        rcontent, rpos = ro[0] or b"", ro[1]
-        if "content" in track and ps[0] != rcontent:
-            return "content:%s:%s" % (opname(op), tag), i
-        if "position" in track and ps[1] != rpos:
-            return "position:%s:%s" % (opname(op), tag), i
-        if "read-stream" in track and readable and rpos is not None and ps[2] != rcontent[rpos:]:
-            return "read-stream:%s:%s" % (opname(op), tag), i
-    # no latent divergence before the black-box one: the observed step is the culprit
-    if isinstance(at, int) and at < len(prog):
-        op = prog[at]
-        tag = "plain"
-        if at < nobs + 1:
-            tag = feature(cfg, op, sr.observed[at], sr.observed[at + 1] if at + 1 <= nobs else None)
-        return "%s:%s:%s" % (clause, opname(op), tag), at
-    return "%s:end" % clause, None
+    if not program:
+        return "%s:open" % clause, None
+    if clause in ("final-bytes", "bytes-after-flush"):
+        culprit, component = len(program) - 1, "content"
+    else:
+        culprit = min(at, len(program) - 1)
+        component = "position" if clause == "tell" else "read-stream"
+        for i in range(culprit):
+            probe = list(program[:i + 1]) + [("tell",), ("read", None)]
+            ps, pr = run_sftp(cfg, probe), run_ref(cfg, probe)
+            if len(ps.results) < i + 3 or len(pr.results) < i + 3:
+                break
+            if not _same(ps.results[i + 1], pr.results[i + 1]):
+                culprit, component = i, "position"
+                break
+            if not _same(ps.results[i + 2], pr.results[i + 2]):
+                culprit, component = i, "read-stream"
+                break
+    op = program[culprit]
+    pre = sr.observed[culprit]
+    post = sr.observed[culprit + 1] if culprit + 1 < len(sr.observed) else None
+    return "%s:%s:%s" % (component, opname(op), feature(cfg, op, pre, post, component)), culprit
 
 
 # ----------------------------------------------------------------------------- BFS per configuration
